@@ -322,6 +322,10 @@ func TestWorker(t *testing.T) {
 		active.Store(true)
 		res := runOne(t, plan, dec, eng)
 		active.Store(false)
+		if p := os.Getenv("VERIF_STEP_TRACE"); p != "" {
+			os.WriteFile(p, StepTrace, 0o644)
+			StepTrace = StepTrace[:0]
+		}
 		nt := nontrivial(job.Prop, &res.Probes, res)
 		sum.Runs++
 		sum.Steps += int64(res.Steps)
@@ -345,6 +349,7 @@ func TestWorker(t *testing.T) {
 		sum.Faults["gate_stop"] += eng.gateCount[2]
 		sum.Faults["resumed_after_unlock"] += eng.nAfterUnlock
 		sum.Faults["preempted_after_unlock"] += eng.nPreemptAfterUnlock
+		sum.Faults["parked_at_automatic_site"] += eng.sim.AutoParks
 		if nt {
 			fps[res.FP] = true
 		}
